@@ -76,6 +76,8 @@ func loopTerm(v []s2.Point, originInside bool, depth int, lng float64) string {
 // sums at most 2N triangles ("in theory it could be as high as 2*N"), Area itself uses
 // turningAngleMaxError = 11.25*dblEpsilon*N ~ 2.5e-15*N as its ambiguity band. We allow
 // 1e-14*N + 1e-14 per area value (2N triangles * 5e-15), with a 1e-6 relative margin.
+const fanRelBound = 1e-6
+
 func areaTol(n int) float64 { return (1e-14*float64(n) + 1e-14) * (1 + 1e-6) }
 
 type genLoop struct {
@@ -274,6 +276,10 @@ func generate(rng *vkit.Rng, budget int) []genLoop {
 		if rep == 0 {
 			add("regular n=400", s2.RegularLoop(randPoint(rng), s1.Angle(rng.Range(1e-4, 1.0)), 400).Vertices(), false, true)
 			add("regular n=400 tiny", s2.RegularLoop(randPoint(rng), s1.Angle(1e-6), 400).Vertices(), false, true)
+			// many vertices AND tiny: the area (3e-14 .. 3e-13 sr) is below turningAngleMaxError(n), so the final
+			// orientation re-check of Loop.Area is the branch that decides; the triangle sum must survive it
+			add("regular n=1000 tiny r=1e-7", s2.RegularLoop(randPoint(rng), s1.Angle(1e-7), 1000).Vertices(), false, true)
+			add("regular n=1000 tiny r=3e-7", s2.RegularLoop(randPoint(rng), s1.Angle(3e-7), 1000).Vertices(), false, true)
 			// up to 10^4 vertices ([S] only)
 			add("regular n=2000", s2.RegularLoop(randPoint(rng), s1.Angle(rng.Range(1e-3, 1.4)), 2000).Vertices(), false, true)
 			add("regular n=10000", s2.RegularLoop(randPoint(rng), s1.Angle(rng.Range(1e-2, 1.0)), 10000).Vertices(), false, true)
@@ -298,6 +304,7 @@ type state struct {
 	maxSumErr float64 // max |A + A' - 4pi| / tol observed
 	maxRotErr float64
 	maxFanErr float64
+	maxFanRel float64
 	maxOraErr float64
 	maxRelTiny float64
 	maxGBErr  float64
@@ -637,6 +644,16 @@ func (st *state) processLoop(g genLoop, full bool) {
 		if e := math.Abs(sum-area) / tol; e > st.maxFanErr {
 			st.maxFanErr = e
 		}
+		// small non-degenerate convex loops: "good relative accuracy even for small loops" (doc comment of Loop.Area);
+		// the bound is 1000 times the largest relative difference measured on the unchanged code
+		if !g.degen && sum > 1e-18 && sum < 1e-9 {
+			if e := math.Abs(sum-area) / sum; e > st.maxFanRel {
+				st.maxFanRel = e
+			}
+			if math.Abs(sum-area) > fanRelBound*sum {
+				c.Violate("Loop.Area.triangulation.relative"+g.sfx, "Area of a small non-degenerate convex loop differs from the sum of the fan triangle areas by more than 1e-6 of it", replay(g.class, v, map[string]interface{}{"area": area, "fan_sum": sum, "relative_bound": fanRelBound}))
+			}
+		}
 		if math.Abs(sum-area) > tol {
 			c.Violate("Loop.Area.triangulation"+g.sfx, "Area differs from the sum of the fan triangle areas beyond the documented error", replay(g.class, v, map[string]interface{}{"area": area, "fan_sum": sum, "tol": tol}))
 		}
@@ -911,6 +928,7 @@ func run(c *vkit.Collector, rng *vkit.Rng, budget int) {
 	c.Extra["max |A+A'-4pi| / tol"] = st.maxSumErr
 	c.Extra["max |A-A_rot| / tol"] = st.maxRotErr
 	c.Extra["max |A-fan| / tol"] = st.maxFanErr
+	c.Extra["max |A-fan| / fan for small non-degenerate convex loops (bound 1e-6)"] = st.maxFanRel
 	c.Extra["max |A-oracle| / tol"] = st.maxOraErr
 	c.Extra["max |A-(2pi-TurningAngle)| / tol"] = st.maxGBErr
 	c.Extra["max |Centroid-Centroid_rot| / tol"] = st.maxCenErr
